@@ -276,11 +276,39 @@ def factorize(t_):
     return fs
 
 
+def ite_lift(t, depth=5):
+    """pull if-then-else out of arithmetic: f(ite(c, x, y)) -> ite(c, f(x), f(y)) (so that cancellation sees plain sums)"""
+    if depth == 0:
+        return t
+    found = []
+
+    def walk(u):
+        if found or not z3.is_app(u):
+            return
+        k = u.decl().kind()
+        if k == z3.Z3_OP_ITE and not z3.is_bool(u):
+            found.append(u)
+            return
+        if k in (z3.Z3_OP_ADD, z3.Z3_OP_MUL, z3.Z3_OP_SUB, z3.Z3_OP_UMINUS, z3.Z3_OP_TO_REAL):
+            for c_ in u.children():
+                walk(c_)
+    if z3.is_app(t) and t.decl().kind() == z3.Z3_OP_ITE and not z3.is_bool(t):
+        return z3.If(t.arg(0), ite_lift(t.arg(1), depth - 1), ite_lift(t.arg(2), depth - 1))
+    walk(t)
+    if not found:
+        return t
+    i = found[0]
+    return z3.If(i.arg(0), ite_lift(z3.simplify(z3.substitute(t, (i, i.arg(1))), som=True), depth - 1),
+                 ite_lift(z3.simplify(z3.substitute(t, (i, i.arg(2))), som=True), depth - 1))
+
+
 def cancel(ta, tb):
     """algebraic cancellation: (k1*y + k2*y + ...) / y -> k1 + k2 + ... ; None if y is not a syntactic
     factor of every addend of the (sum-of-monomials normalised) numerator"""
-    sa = z3.simplify(ta, som=True)
+    sa = ite_lift(z3.simplify(ta, som=True))
     sb = z3.simplify(tb, som=True)
+    if z3.is_rational_value(sa) and sa.as_fraction() == 0:
+        return z3.RealVal(0)          # 0 / y = 0 (the value at y == 0 is the caller's concern, as for every quotient)
     if z3.is_app(sa) and sa.decl().kind() == z3.Z3_OP_ITE:
         x, y = cancel(sa.arg(1), sb), cancel(sa.arg(2), sb)
         if x is not None and y is not None:
